@@ -12,6 +12,9 @@ One long-lived `Shelxfile` object is driven through a history of API calls (read
   byname     get_atom_by_name(a.fullname) is a            (when the NAME_RESINUM is unique)
   deleted    atoms deleted so far are absent from the atom list, the name index, hydrogen/riding/Q-peak lists,
              `_reslist`, and the written file
+  attrs      every instruction object that an attribute of the Shelxfile hands out (`shx.plan`, `shx.cell`, `shx.wght`,
+             … : every attribute that is `None` on a new object) reports a position at which `_reslist` holds that
+             very object — in particular it is an object of the file read LAST
   reread     after every read into the long-lived object: (a) the read did not raise, (b) no mutable container that
              lives on a class / module of the package changed (state shared by all later reads), (c) the whole object
              (every attribute, atoms as tuples, symmetry operators, list of lines ...) equals what a fresh *process*
@@ -22,6 +25,12 @@ Streams (DESIGN 3.2):
   table   implementation vs model (`_reslist` layout, id/position table, name look-ups, clause verdicts, raised)
   reread  implementation (long-lived object, long-lived process) vs fresh process                kind 'property'
 Object identity is carried across as "line number at parse time" (the model's uid).
+
+Files: besides the two fixed files and the random ones, `OPTIONAL` lists every instruction (and SHELXL's own REM/WGHT/Q-peak
+trailer) through which a file can put something into the object; each is optional in a valid file.  The read histories
+are enumerated over files that HAVE one of them followed by a file that has NONE (and over bare / rich / other-values
+profiles in every order, through every pair of entry points): an attribute that the parser assigns only when it meets the
+instruction shows a missing reset only when the file read second lacks the instruction.
 """
 import itertools
 import json
@@ -33,13 +42,13 @@ from pathlib import Path
 
 from .. import core
 
-CLAUSES = ['position', 'cards', 'ids', 'byid', 'byname', 'deleted']
+CLAUSES = ['position', 'cards', 'ids', 'byid', 'byname', 'deleted', 'attrs']
 
 # ------------------------------------------------------------------------------------------------
 # files by construction: a list of line dicts  {"k":"r"|"c","text":…}  |  {"k":"a", name, sfac, xyz, sof, u, resi, q}
 # "k" is what `_parse_cards` has to make of the line: raw string, instruction object, Atom.
 
-RAW_KW = {'TITL', 'END', 'LIST', 'TEMP', 'EXTI', 'OMIT', 'EQIV', 'MOLE', 'LAUE'}
+RAW_KW = {'TITL', 'END', 'LIST', 'TEMP', 'EXTI', 'OMIT', 'EQIV', 'MOLE', 'LAUE', 'ANSC', 'ANSR', 'TIME', 'FEND', 'NEUT'}
 
 
 def L(text):
@@ -60,14 +69,188 @@ def render(lines):
     return '\n'.join(atom_text(x) if x['k'] == 'a' else x['text'] for x in lines) + '\n'
 
 
-def header(latt=-1, symm=(), sfac=('C', 'H', 'O'), fvar=(0.5,), extra=(), cell='0.71073 10.0 11.0 12.0 90 95 90', z=4):
+STD = ('TEMP -100', 'L.S. 10', 'PLAN 20', 'LIST 4')
+
+
+def header(latt=-1, symm=(), sfac=('C', 'H', 'O'), fvar=(0.5,), extra=(), cell='0.71073 10.0 11.0 12.0 90 95 90', z=4, std=STD):
     out = [L('TITL c08 test'), L(f'CELL {cell}'), L(f'ZERR {z} 0.001 0.001 0.001 0 0.01 0'), L(f'LATT {latt}')]
     out += [L(f'SYMM {s}') for s in symm]
     out += [L('SFAC ' + ' '.join(sfac)), L('UNIT ' + ' '.join(str(4 * (i + 1)) for i in range(len(sfac))))]
-    out += [L('TEMP -100'), L('L.S. 10'), L('PLAN 20'), L('LIST 4')]
-    out += [L(x) for x in extra]
+    out += [L(x) for x in std]
+    out += [x if isinstance(x, dict) else L(x) for x in extra]
     out += [L('FVAR ' + ' '.join(f'{v:.5f}' for v in fvar))]
     return out
+
+
+# ------------------------------------------------------------------------------------------------
+# every way in which a valid file can put something into the Shelxfile object — each of them optional.
+# (key, section, lines(v)): v = 0/1 selects one of two sets of values (all of them different from the defaults and from
+# each other), so that two files that both have the instruction still differ in what it says.
+# sections: disp (between SFAC and UNIT), head (instruction section), pre (directly before the atoms), post (own atoms,
+# after the common ones), tail (between HKLF and END: SHELXL writes its REM summary there), after (behind END)
+
+def _n(v, a, b):
+    return a if v == 0 else b
+
+
+OPTIONAL = [
+    ('SYMM', 'symm', lambda v: [L('SYMM ' + _n(v, '-X, 1/2+Y, -Z', '1/2+X, -Y, 1/2-Z'))]),
+    ('DISP', 'disp', lambda v: [L(f'DISP C {_n(v, 0.0033, 0.0181)} {_n(v, 0.0016, 0.0091)} {_n(v, 11.5, 33.5)}')]),
+    ('TEMP', 'head', lambda v: [L(f'TEMP {_n(v, -100, -173.18)}')]),
+    ('L.S.', 'head', lambda v: [L(f'L.S. {_n(v, "10 2 3", "14")}')]),
+    ('CGLS', 'head', lambda v: [L(f'CGLS {_n(v, 7, "9 1")}')]),
+    ('PLAN', 'head', lambda v: [L(f'PLAN {_n(v, "25 1.5 2.5", "-30")}')]),
+    ('LIST', 'head', lambda v: [L(f'LIST {_n(v, 4, 6)}')]),
+    ('ABIN', 'head', lambda v: [L(f'ABIN {_n(v, "1 2", "3 4")}')]),
+    ('ACTA', 'head', lambda v: [L(f'ACTA {_n(v, 52, "50.5 NOHKL")}')]),
+    ('FMAP', 'head', lambda v: [L(f'FMAP {_n(v, "2 1 40", "-2")}')]),
+    ('XNPD', 'head', lambda v: [L(f'XNPD {_n(v, -0.002, 0.003)}')]),
+    ('WPDB', 'head', lambda v: [L(f'WPDB {_n(v, 2, -1)}')]),
+    ('WIGL', 'head', lambda v: [L(f'WIGL {_n(v, "0.1 0.3", "0.15")}')]),
+    ('SWAT', 'head', lambda v: [L(f'SWAT {_n(v, "0.5 3", "0.25 4")}')]),
+    ('STIR', 'head', lambda v: [L(f'STIR {_n(v, "1.5 0.02", "1.8")}')]),
+    ('SPEC', 'head', lambda v: [L(f'SPEC {_n(v, 0.3, 0.4)}')]),
+    ('TWST', 'head', lambda v: [L(f'TWST {_n(v, 1, 2)}')]),
+    ('PRIG', 'head', lambda v: [L(f'PRIG {_n(v, 1.5, 2.5)}')]),
+    ('MERG', 'head', lambda v: [L(f'MERG {_n(v, 3, 4)}')]),
+    ('MORE', 'head', lambda v: [L(f'MORE {_n(v, 2, 3)}')]),
+    ('MOVE', 'pre', lambda v: [L(f'MOVE {_n(v, "0.5 0.5 0.5 -1", "1 1 1")}')]),
+    ('DEFS', 'head', lambda v: [L(f'DEFS {_n(v, "0.03 0.2 0.02 0.05 0.9", "0.025 0.15")}')]),
+    ('WGHT', 'head', lambda v: [L(f'WGHT {_n(v, "0.05 0.2", "0.0777")}')]),
+    ('TWIN', 'head', lambda v: [L(f'TWIN {_n(v, "0 1 0 1 0 0 0 0 -1 3", "1 0 0 0 -1 0 0 0 -1")}')]),
+    ('BASF', 'head', lambda v: [L(f'BASF {_n(v, "0.3 0.2", "0.45")}')]),
+    ('ANIS', 'head', lambda v: [L(f'ANIS {_n(v, "C1", "$O")}')]),
+    ('ANIS-n', 'pre', lambda v: [L(f'ANIS {_n(v, 2, 1)}')]),
+    ('DAMP', 'head', lambda v: [L(f'DAMP {_n(v, "0.5 10", "1.7")}')]),
+    ('SIZE', 'head', lambda v: [L(f'SIZE {_n(v, "0.1 0.2 0.3", "0.15 0.25 0.35")}')]),
+    ('HTAB', 'head', lambda v: [L(f'HTAB {_n(v, 2.2, "C1 O1")}')]),
+    ('SHEL', 'head', lambda v: [L(f'SHEL {_n(v, "99 0.8", "50 0.9")}')]),
+    ('MPLA', 'head', lambda v: [L(f'MPLA {_n(v, "3 C1 C2 O1", "C1 C2 O1")}')]),
+    ('GRID', 'head', lambda v: [L(f'GRID {_n(v, "-1 -2 -3 1 2 3", "-3 -2 -1 3 2 1")}')]),
+    ('CONN', 'head', lambda v: [L(f'CONN {_n(v, "8 C1", "6")}')]),
+    ('CONF', 'head', lambda v: [L(f'CONF{_n(v, "", " C1 C2 O1 C1")}')]),
+    ('BLOC', 'head', lambda v: [L(f'BLOC {_n(v, "1 C1 C2", "-1 O1")}')]),
+    ('BOND', 'head', lambda v: [L(f'BOND {_n(v, "$H", "C1 O1")}')]),
+    ('BIND', 'head', lambda v: [L(f'BIND {_n(v, "C1 O1", "C2 O1")}')]),
+    ('RTAB', 'head', lambda v: [L(f'RTAB {_n(v, "omeg C1 C2", "dist C1 O1")}')]),
+    ('OMIT', 'head', lambda v: [L(f'OMIT {_n(v, "1 0 0", "-3 55")}')]),
+    ('FREE', 'head', lambda v: [L(f'FREE {_n(v, "C1 C2", "C2 O1")}')]),
+    ('EQIV', 'head', lambda v: [L(f'EQIV {_n(v, "$1 -X, -Y, -Z", "$2 1-X, 1/2+Y, -Z")}')]),
+    ('HFIX', 'head', lambda v: [L(f'HFIX {_n(v, "43 C1", "137 C2")}')]),
+    ('SUMP', 'head', lambda v: [L(f'SUMP {_n(v, "1.0 0.01 1.0 2", "0.5 0.02 1.0 2 1.0 2")}')]),
+    ('EXTI', 'head', lambda v: [L(f'EXTI {_n(v, 0.002, 0.0135)}')]),
+    ('ANSR', 'head', lambda v: [L(f'ANSR {_n(v, 0.002, 0.004)}')]),
+    ('ANSC', 'head', lambda v: [L(f'ANSC {_n(v, "1 2 3 4 5 6", "6 5 4 3 2 1")}')]),
+    ('BUMP', 'head', lambda v: [L(f'BUMP {_n(v, 0.03, 0.05)}')]),
+    ('SADI', 'head', lambda v: [L(f'SADI {_n(v, "C1 C2 C1 O1", "0.03 C2 O1 C1 O1")}')]),
+    ('SADI-bare', 'head', lambda v: [L('SADI')] + ([L('REM x')] if v else [])),
+    ('DFIX', 'head', lambda v: [L(f'DFIX {_n(v, "1.5 C1 C2", "1.45 0.01 C2 O1")}')]),
+    ('DANG', 'head', lambda v: [L(f'DANG {_n(v, "2.5 C1 O1", "2.4 0.03 C2 O1")}')]),
+    ('SIMU', 'head', lambda v: [L(f'SIMU {_n(v, "C1 C2", "0.03 0.06 1.8 C1 > O1")}')]),
+    ('DELU', 'head', lambda v: [L(f'DELU {_n(v, "C1 C2", "0.02 0.02 C2 O1")}')]),
+    ('RIGU', 'head', lambda v: [L(f'RIGU{_n(v, "", " 0.003 0.003 C1 C2")}')]),
+    ('ISOR', 'head', lambda v: [L(f'ISOR {_n(v, "0.1 C1", "0.05 0.1 O1")}')]),
+    ('FLAT', 'head', lambda v: [L(f'FLAT {_n(v, "C1 C2 O1 C1", "0.05 C2 C1 O1 C2")}')]),
+    ('CHIV', 'head', lambda v: [L(f'CHIV {_n(v, "0 0.1 C1", "2.5 C2")}')]),
+    ('EADP', 'head', lambda v: [L(f'EADP {_n(v, "C1 C2", "C2 O1")}')]),
+    ('EXYZ', 'head', lambda v: [L(f'EXYZ {_n(v, "C1 C2", "C2 O1")}')]),
+    ('SAME', 'pre', lambda v: [L(f'SAME {_n(v, "C1 C2", "0.03 0.05 C2 > O1")}')]),
+    ('NCSY', 'head', lambda v: [L(f'NCSY {_n(v, "1 C1 C2", "-1 0.2 0.1 O1")}')]),
+    ('REM', 'head', lambda v: [L(f'REM {_n(v, "a remark", "another remark = with a mark")}')]),
+    ('REM-DSR', 'head', lambda v: [L(f'REM DSR {_n(v, "PUT TOLUENE WITH C1 C2 ON C1 C2 PART 2 OCC -31", "REPLACE BENZENE WITH C1 C2 ON C2 O1")}')]),
+    ('REM-R1', 'tail', lambda v: [L(f'REM R1 = {_n(v, 0.04, 0.0312)} for {_n(v, 7085, 911)} Fo > 4sig(Fo) and 0.0794 for all {_n(v, 10786, 1234)} data')]),
+    ('REM-wR2', 'tail', lambda v: [L(f'REM wR2 = {_n(v, 0.1005, 0.0876)}, GooF = S = {_n(v, 1.016, 1.101)}, Restrained GooF = {_n(v, 0.95, 1.099)} for all data')]),
+    ('REM-par', 'tail', lambda v: [L(f'REM R1 = 0.05 for 5000 Fo > 4sig(Fo) and 0.06 for all {_n(v, 6000, 7000)} data'),
+                                   L(f'REM {_n(v, 945, 131)} parameters refined using {_n(v, 1842, 7)} restraints')]),
+    ('REM-sg', 'tail', lambda v: [L(f'REM c08 in {_n(v, "P2(1)/c", "C2/c")}')]),
+    ('REM-peak', 'after', lambda v: [L(f'REM Highest difference peak  {_n(v, 0.407, 1.213)},  deepest hole {_n(v, -0.691, -0.355)},  1-sigma level  0.073')]),
+    ('WGHT-sugg', 'after', lambda v: [L(f'WGHT {_n(v, "0.0491 0.0000", "0.0312 1.2345")}')]),
+    ('QPEAK', 'after', lambda v: [A('Q1', 1, (0.5, _n(v, 0.5, 0.25), 0.5), u=(0.05, _n(v, 1.5, 2.25)), q=True)]),
+    ('RESI', 'post', lambda v: [L(f'RESI {_n(v, "3 CCC", "DDD 7")}'), A('C5', 1, (0.3, 0.2, _n(v, 0.3, 0.35)), resi=_n(v, 3, 7)), L('RESI 0')]),
+    ('RESI-open', 'post', lambda v: [L(f'RESI {_n(v, "5 DDD", "9 EEE")}'), A('C9', 1, (0.43, 0.25, _n(v, 0.3, 0.35)), resi=_n(v, 5, 9))]),
+    ('PART', 'post', lambda v: [L(f'PART {_n(v, "1 21", "2 -21")}'), A('C6', 1, (0.4, 0.2, _n(v, 0.3, 0.35)), sof=_n(v, 21.0, -21.0)), L('PART 0')]),
+    ('PART-open', 'post', lambda v: [L(f'PART {_n(v, 2, -1)}'), A('C8', 1, (0.42, 0.25, _n(v, 0.3, 0.35)))]),
+    ('AFIX', 'post', lambda v: [L(f'AFIX {_n(v, 43, 13)}'), A('H1', 2, (0.4, 0.25, _n(v, 0.3, 0.35)), u=(_n(v, -1.2, -1.5),)), L('AFIX 0')]),
+    ('AFIX-open', 'post', lambda v: [L(f'AFIX {_n(v, 66, 56)}'), A('C7', 1, (0.41, 0.25, _n(v, 0.3, 0.35)))]),
+    ('FRAG', 'post', lambda v: [L(f'FRAG {_n(v, "17 1 1 1 90 90 90", "18 2 2 2 90 100 90")}'), dict(k='r', text='C1 1 0.1 0.2 0.3'),
+                                dict(k='r', text='C2 1 0.2 0.3 0.4'), L('FEND')]),
+    ('FRAG-open', 'post', lambda v: [L(f'FRAG {_n(v, "17 1 1 1 90 90 90", "18 2 2 2 90 100 90")}'), dict(k='r', text='C1 1 0.1 0.2 0.3')]),
+    ('MOLE', 'head', lambda v: [L(f'MOLE {_n(v, 1, 2)}')]),
+    ('LAUE', 'head', lambda v: [L(f'LAUE {_n(v, "C", "O")}')]),
+    ('TIME', 'head', lambda v: [L(f'TIME {_n(v, 5, 50)}')]),
+    ('NEUT', 'neut', lambda v: [L('NEUT')]),
+    ('SFAC-2', 'disp', lambda v: [L(f'SFAC {_n(v, "N", "S F")}')]),
+    ('FVAR-2', 'pre', lambda v: [L(f'FVAR {_n(v, "0.7", "0.3 0.8")}')]),
+    ('HKLF-long', 'hklf', lambda v: [L(f'HKLF {_n(v, "4 1 1 0 0 0 1 0 0 0 1", "5 2 0 1 0 1 0 0 0 0 -1")}')]),
+    ('blank', 'head', lambda v: [L('')] * (1 + v)),
+]
+OPT_KEYS = [k for k, _, _ in OPTIONAL]
+# what SHELXL refuses in one file, or what would only shadow another group: left out of the "rich" profile
+NOT_IN_RICH = {'CGLS', 'SWAT', 'ANIS-n', 'RESI-open', 'PART-open', 'AFIX-open', 'FRAG-open', 'NEUT', 'SFAC-2', 'HKLF-long'}
+
+
+def file_opt(sel, v=0, titl='c08 optional'):
+    """a valid file: the instructions SHELXL cannot do without (TITL CELL ZERR LATT SFAC UNIT FVAR, atoms, HKLF, END)
+    plus the groups of `OPTIONAL` named in `sel` = [key | (key, v)], everything else absent"""
+    parts = {}
+    for item in sel:
+        key, vv = (item, v) if isinstance(item, str) else item
+        sec, fn = next((s_, f_) for k_, s_, f_ in OPTIONAL if k_ == key)
+        parts.setdefault(sec, []).extend(fn(vv))
+    els = ('C', 'H', 'O') if v == 0 else ('O', 'C', 'H')      # the same names stand for other scattering factors
+    nc, nh, no = els.index('C') + 1, els.index('H') + 1, els.index('O') + 1
+    f = [L(f'TITL {titl}'), L('CELL ' + _n(v, '0.71073 10.0 11.0 12.0 90 95 90', '1.54178 7.5 8.25 19.0 90 101.5 90')),
+         L(f'ZERR {_n(v, 4, 2)} 0.001 0.001 0.001 0 0.01 0'), L(f'LATT {_n(v, -1, 2)}')]
+    f += parts.get('symm', []) + parts.get('neut', [])
+    f += [L('SFAC ' + ' '.join(els))] + parts.get('disp', []) + [L('UNIT ' + _n(v, '4 8 12', '6 10 2') + (' 2' * sum(len(x['text'].split()) - 1 for x in parts.get('disp', []) if x['text'].startswith('SFAC'))))]
+    f += parts.get('head', [])
+    f += [L('FVAR ' + _n(v, '0.5 0.6', '0.75 0.4 0.3'))] + parts.get('pre', [])
+    f += [A('C1', nc, (0.1, 0.2, _n(v, 0.3, 0.31))), A('C2', nc, (0.15, 0.25, _n(v, 0.35, 0.36)), sof=_n(v, 11.0, 21.0)),
+          A('O1', no, (0.6, 0.7, _n(v, 0.8, 0.81)), u=_n(v, (0.04,), (0.02, 0.03, 0.04, 0.001, 0.002, 0.003)))]
+    f += [dict(x, sfac={1: nc, 2: nh, 3: no}[x['sfac']]) if x['k'] == 'a' and not x['q'] else x for x in parts.get('post', [])]
+    f += parts.get('hklf', [L('HKLF 4')]) + parts.get('tail', []) + [L('END')] + parts.get('after', [])
+    return f
+
+
+def file_bare(v=0):
+    return file_opt([], v, titl='c08 bare')
+
+
+def file_rich(v=0):
+    return file_opt([k for k in OPT_KEYS if k not in NOT_IN_RICH], v, titl='c08 rich')
+
+
+def read_shapes(a, b):
+    """every way to read file a and then file b into one object"""
+    return [[['read_string', a], ['read_string', b]], [['read_file', a], ['read_file', b]], [['read_string', a], ['read_file', b]],
+            [['read_file', a], ['read_string', b]], [['read_file', a], ['read_file', b], ['reload']],
+            [['read_file', a], ['reload'], ['read_string', b], ['read_file', b]]]
+
+
+def reread_cases(ctx):
+    """the systematic part of the re-read stream.
+    one-in:   file with exactly one optional group, then the bare file        (all groups x 5 shapes, other values x 2 shapes)
+    profiles: bare / rich / rich with other values / the two fixed files, every ordered pair x 6 shapes
+    one-out:  rich file, then the rich file (other values) without one group  (quick: a sample, thorough: all)"""
+    cases = []
+    bare = file_bare()
+    for key in OPT_KEYS:
+        for v in (0, 1):
+            shapes = read_shapes(0, 1)[:5]          # (the sixth re-reads file a itself: one more fresh process per group)
+            for ops in (shapes if v == 0 else shapes[:2]):
+                cases.append(dict(files=[file_opt([key], v), bare if v == 0 else file_bare(1)], ops=ops, tag='one-in:' + key))
+    prof = [file_bare(), file_rich(0), file_rich(1), file_twins(), file_other()]
+    for i in range(len(prof)):
+        for j in range(len(prof)):
+            if i != j:
+                for ops in read_shapes(i, j):
+                    cases.append(dict(files=prof, ops=ops, check_first_read=True, tag='profiles'))
+    rich_keys = [k for k in OPT_KEYS if k not in NOT_IN_RICH]
+    outs = rich_keys if ctx.budget(0, 1) else ctx.rng.sample(rich_keys, 6)
+    for key in outs:
+        cases.append(dict(files=[file_rich(0), file_opt([k for k in rich_keys if k != key], 1, titl='c08 rich')],
+                          ops=[['read_string', 0], ['read_string', 1]], tag='one-out:' + key))
+    return cases
 
 
 def file_twins():
@@ -114,7 +297,17 @@ def random_file(rng):
              'FMAP 2', 'SIZE 0.1 0.2 0.3', 'WGHT 0.05 0.2', 'HTAB', 'EQIV $1 -X, -Y, -Z', 'OMIT 1 0 0']
     extra = [rng.choice(restr) for _ in range(rng.randint(0, 6))]
     cell = rng.choice(['0.71073 10.0 11.0 12.0 90 95 90', '1.54178 8.0 8.0 15.5 90 90 120', '0.56086 6.5 9.25 13.0 80 85 75'])
-    f = header(latt=latt, symm=symm, sfac=els, fvar=fv, extra=extra, cell=cell, z=rng.choice([1, 2, 4, 8]))
+    # every instruction is optional: the usual four with other values or absent, any of the groups of OPTIONAL present
+    std = [x for x in (f'TEMP {rng.choice([-100, -173.15, 0, 25])}', f'L.S. {rng.randint(1, 20)}', f'PLAN {rng.randint(5, 40)}',
+                       f'LIST {rng.choice([4, 6])}') if rng.random() < 0.6]
+    opt = {'head': [], 'tail': [], 'after': []}
+    if rng.random() < 0.7:
+        for key, sec, fn in OPTIONAL:
+            if sec in opt and key not in ('QPEAK', 'blank') and rng.random() < 0.15:
+                opt[sec] += fn(rng.randint(0, 1))
+    extra += opt['head']
+    rng.shuffle(extra)
+    f = header(latt=latt, symm=symm, sfac=els, fvar=fv, extra=extra, cell=cell, z=rng.choice([1, 2, 4, 8]), std=std)
     atoms = []
     nat = rng.randint(2, 9)
     resi = 0
@@ -155,7 +348,7 @@ def random_file(rng):
         f.append(L('PART 0'))
     if resi:
         f.append(L('RESI 0'))
-    f += [L('HKLF 4'), L('END')]
+    f += [L('HKLF 4')] + opt['tail'] + [L('END')] + opt['after']
     for q in range(rng.randint(0, 3)):
         f.append(A(f'Q{q + 1}', 1, (round(rng.uniform(0, 1), 4), 0.5, 0.25), u=(0.05, round(1.5 - 0.1 * q, 2)), q=True))
     return f
@@ -309,6 +502,10 @@ class Player:
         self.files = case['files']
         self.tmp = tmpdir
         self.shx = Shelxfile()
+        # the attributes that a new object has as `None`: whatever one of them holds later, a read put it there
+        # (`afix`, like `part` and `resi`, is the parser's "current AFIX/PART/RESI" — a synthetic `AFIX 0` after HKLF/END — and
+        # not an instruction of the file that the API hands out)
+        self.none_attrs = sorted(n for n, v in vars(self.shx).items() if v is None and n not in ('afix', 'part', 'resi'))
         self.texts = {}          # interned texts
         self.uid = {}            # id(obj) -> uid
         self.obj = {}            # uid -> obj (keeps the objects alive)
@@ -345,6 +542,9 @@ class Player:
         mfile = []
         self.kind_mismatch = 0
         self.atoms_missed = 0
+        holder = {}              # id(object) -> the attribute that hands it out
+        for n, x in self.attr_objects():
+            holder.setdefault(id(x), n)
         for i, x in enumerate(self.shx._reslist):
             if isinstance(x, str):
                 kind = 'r'
@@ -357,12 +557,21 @@ class Player:
                     mfile.append(['a', self.tid_obj(x), self.intern(('name', x.fullname.upper()))])
                 else:
                     kind = 'c'
-                    mfile.append(['c', self.tid_obj(x)])
+                    mfile.append(['c', self.tid_obj(x)] + ([self.intern(('attr', holder[id(x)]))] if id(x) in holder else []))
             if i >= len(lines) or lines[i]['k'] != kind:
                 self.kind_mismatch += 1
                 if kind == 'a' or (i < len(lines) and lines[i]['k'] == 'a'):
                     self.atoms_missed += 1
         return mfile
+
+    def attr_objects(self):
+        """[(attribute, object)] for the attributes that are `None` on a new Shelxfile and hold an object now"""
+        out = []
+        for n in self.none_attrs:
+            x = getattr(self.shx, n, None)
+            if x is not None and not isinstance(x, (bool, int, float, str, bytes, Path, list, tuple, dict, set)):
+                out.append((n, x))
+        return out
 
     def atom(self, i):
         al = self.shx.atoms.all_atoms
@@ -423,12 +632,10 @@ class Player:
             return [['retext', u, self.tid_obj(a)]], False, None
         if kind == 'add_line':
             anchor, what = op[1], op[2]
-            if anchor == 'unit':
-                pos = shx.unit.position
-            elif anchor == 'fvars':
-                pos = shx.fvars.position
-            elif anchor == 'cycles':
-                pos = shx.cycles.position
+            if anchor in ('unit', 'fvars', 'cycles'):
+                if getattr(shx, anchor, None) is None:          # a file without L.S./CGLS has no `cycles`
+                    return None
+                pos = getattr(shx, anchor).position
             else:
                 a = self.atom(anchor[1])
                 if a is None:
@@ -538,6 +745,12 @@ class Player:
             if id(x) not in uid:          # handed out by the API but never placed in the file list
                 ok_cards = False
                 cards.append([10 ** 6, self.position_of(x)])
+        slots, ok_attrs = [], True
+        for n, x in self.attr_objects():
+            idx = self.position_of(x)
+            slots.append([self.intern(('attr', n)), uid.get(id(x), 10 ** 6)])
+            if idx is None or not (0 <= idx < len(rl)) or rl[idx] is not x:
+                ok_attrs = False
         ok_ids = len(set(ids)) == len(ids) and len({id(a) for a in al}) == len(al)
         ok_byid = all(aid >= 0 and shx.atoms.get_atom_by_id(aid) is a for a, aid in zip(al, ids))
         names = [a.fullname.upper() for a in al]
@@ -557,7 +770,7 @@ class Player:
             if write:
                 ok_written = self.written_ok(al)
         return dict(raised=raised, res=res, atoms=atoms, cards=cards, byname=byname, gone=sorted(u for u, _ in self.deleted),
-                    clauses=[ok_pos, ok_cards, ok_ids, ok_byid, ok_byname, ok_del], written=ok_written)
+                    slots=sorted(slots), clauses=[ok_pos, ok_cards, ok_ids, ok_byid, ok_byname, ok_del, ok_attrs], written=ok_written)
 
     def written_ok(self, al):
         """the line of a deleted atom occurs in the written file no more often than entries of the file list print it"""
@@ -587,6 +800,7 @@ def evaluate(ctx, cases, stream=None):
     for s in ('inv', 'table', 'reread'):
         ctx.stream(s)
     reqs, played = [], []
+    prefetch(cases)
     with tempfile.TemporaryDirectory(prefix='c08_') as tmp:
         for case in cases:
             pl = play(ctx, case, tmp)
@@ -612,7 +826,8 @@ def evaluate(ctx, cases, stream=None):
         ctx.count(['hist', case['files'], case['ops']], nontrivial=nontrivial,
                   sample=dict(ops=case['ops'][:6], atoms=len(pl.shx.atoms.all_atoms), steps=len(pl.steps)) if len(pl.steps) > 2 else None,
                   tags=['len=%d' % min(len(case['ops']), 41)] + sorted({'op=' + k for k in pl.opkinds}) + (['twins'] if pl.twins else []) +
-                  (['line-kinds-differ-from-construction'] if getattr(pl, 'kind_mismatch', 0) else []))
+                  (['line-kinds-differ-from-construction'] if getattr(pl, 'kind_mismatch', 0) else []) +
+                  (['reread=' + case['tag'].split(':')[0]] if case.get('tag') else []))
         # implementation vs spec --------------------------------------------------------------
         reported = False
         for si, st in enumerate(pl.steps):
@@ -624,7 +839,7 @@ def evaluate(ctx, cases, stream=None):
                          f'after {small["ops"]}: clause(s) {bad} of the consistency invariant fail on the real object graph '
                          f'(atoms [uid, atomid, index] = {st["atoms"]})',
                          dict(case=small, stream='inv', expected=dict(clauses=dict.fromkeys(CLAUSES + ['written'], True)),
-                              actual=dict(failed=bad, atoms=st['atoms'], byname=st['byname'], gone=st['gone']),
+                              actual=dict(failed=bad, atoms=st['atoms'], byname=st['byname'], gone=st['gone'], slots=self_slots(pl, st)),
                               model=None if ans is None or st['mi'] >= len(ans) else dict(atoms=ans[st['mi']]['atoms'], clauses=ans[st['mi']]['model'])))
                 reported = True
                 break
@@ -654,9 +869,18 @@ def evaluate(ctx, cases, stream=None):
         for st, m in zip(pl.msteps, ans):
             if st is None:
                 continue
+            if st['slots'] != sorted(m['specslots']):        # implementation vs spec (theorem attrs_history)
+                small = dict(case, ops=case['ops'][:st['nops']])
+                ctx.fail(f'C08|attrs|after={st["opkind"]}',
+                         f'after {small["ops"]}: the instruction objects handed out by the attributes of the Shelxfile are not those of '
+                         f'the file read last: {self_slots(pl, st)}',
+                         dict(case=small, stream='inv', expected=dict(slots=named_slots(pl, sorted(m['specslots']))),
+                              actual=dict(slots=self_slots(pl, st)), model=dict(slots=named_slots(pl, sorted(m['slots'])))))
+                reported = True
+                break
             diff = None
-            for fld in ('res', 'atoms', 'cards', 'byname', 'gone', 'raised'):
-                mv = sorted(m[fld]) if fld == 'gone' else m[fld]
+            for fld in ('res', 'atoms', 'cards', 'byname', 'gone', 'raised', 'slots'):
+                mv = sorted(m[fld]) if fld in ('gone', 'slots') else m[fld]
                 if st[fld] != mv:
                     diff = fld
                     break
@@ -668,6 +892,16 @@ def evaluate(ctx, cases, stream=None):
                          dict(case=small, stream='table', actual={diff: st.get(diff, st['clauses'])}, model={diff: m.get(diff, m['model'])}),
                          kind='correspondence')
                 break
+
+
+def named_slots(pl, slots):
+    """[attribute number, uid] -> [attribute name, line number at parse time | 'not an object of this file']"""
+    names = {v: k[1] for k, v in pl.texts.items() if k[0] == 'attr'}
+    return [[names.get(k, k), 'not an object of the file read last' if u == 10 ** 6 else u] for k, u in slots]
+
+
+def self_slots(pl, st):
+    return named_slots(pl, st['slots'])
 
 
 def play(ctx, case, tmp):
@@ -754,6 +988,30 @@ def _fresh_class_state():
     return json.loads(p.stdout.splitlines()[-1])
 
 
+def prefetch(cases):
+    """the fresh-process references that the histories will ask for, computed side by side (one process per text)"""
+    from concurrent.futures import ThreadPoolExecutor
+    want = []
+    for case in cases:
+        nread = 0
+        for op in case['ops']:
+            if op[0] in ('read_string', 'read_file'):
+                nread += 1
+                if nread > 1 or case.get('check_first_read'):
+                    text = render(case['files'][op[1] % len(case['files'])])
+                    if text not in _fresh_cache and text not in want:
+                        want.append(text)
+            elif op[0] == 'reload' and nread:
+                prev = [o for o in case['ops'][:case['ops'].index(op)] if o[0] in ('read_string', 'read_file')]
+                text = render(case['files'][prev[-1][1] % len(case['files'])])
+                if text not in _fresh_cache and text not in want:
+                    want.append(text)
+    if len(want) > 1:
+        with ThreadPoolExecutor(max_workers=min(8, os.cpu_count() or 2)) as ex:
+            for text, st in zip(want, ex.map(fresh_process_state, want)):
+                _fresh_cache[text] = st
+
+
 def _fresh(text):
     if text not in _fresh_cache:
         _fresh_cache[text] = fresh_process_state(text)
@@ -803,8 +1061,10 @@ def random_walk(rng, nfiles, length):
 def run(ctx):
     ctx.rule = ('histories of API calls on one long-lived Shelxfile object: bounded-exhaustive over a 19-letter alphabet (quick: length <= 2, and length 3 over 11 core letters; thorough: length 3, and length 4 over the edit letters) '
                 '(deletes by id/handle/name, add_line incl. a copy of an atom line, renames, element, to_isotropic, PLAN/L.S. setters, '
-                'read_string/read_file/reload of two files) on a file with text-identical atoms and instructions, plus random walks on '
-                'random files; distinct by (files, ops); non-trivial = at least two applicable calls; the object graph is examined after '
+                'read_string/read_file/reload of two files) on a file with text-identical atoms and instructions; read histories '
+                'file-with-one-optional-instruction -> file-without (every instruction that puts something into the object, two value '
+                'sets, six combinations of entry points), bare/rich/other profiles in every order; plus random walks on random files '
+                '(every instruction optional); distinct by (files, ops); non-trivial = at least two applicable calls; the object graph is examined after '
                 'every call')
     ctx.assumptions = ['object identity is carried to the model as the line number at parse time',
                        'histories use the op alphabet of the model (no replace_line/add_atom/insert_frag_fend_entry, no change of atom.resi)',
@@ -840,6 +1100,10 @@ def run(ctx):
     cases.insert(0, dict(files=files, ops=[['read_string', 0], ['delete', 2]]))
     cases.insert(1, dict(files=files, ops=[['read_string', 0], ['rename', 1, 'C9']]))
     cases.insert(2, dict(files=files, ops=[['read_string', 0], ['add_line', 'unit', ['copy', 1]]]))
+    rr = reread_cases(ctx)
+    ctx.extra['reread_enumeration'] = (f'{len(rr)} read histories: each of the {len(OPT_KEYS)} optional groups (two value sets) followed by a file '
+                                       f'without it, 5 profiles in every order, through 6 pairs of entry points; rich file minus one group')
+    cases[3:3] = rr
     nwalk = ctx.budget(60, 1500)
     for _ in range(nwalk):
         rf = [random_file(ctx.rng) for _ in range(ctx.rng.randint(1, 3))]
